@@ -89,7 +89,7 @@ func newEngine(lr *loadResult, db *SpecDB) *Engine {
 }
 
 // allFunctions enumerates functions (incl. methods and closures) of repository packages.
-func allFunctions(lr *loadResult) map[string]*ssa.Function {
+func allFunctions(lr *loadResult, extra ...string) map[string]*ssa.Function {
 	out := map[string]*ssa.Function{}
 	var add func(f *ssa.Function, pkg string)
 	add = func(f *ssa.Function, pkg string) {
@@ -111,7 +111,13 @@ func allFunctions(lr *loadResult) map[string]*ssa.Function {
 			}
 		}
 	}
-	for _, p := range lr.order {
+	pkgsToScan := append([]*ssa.Package{}, lr.order...)
+	for _, x := range extra {
+		if p, ok := lr.pkgs[x]; ok {
+			pkgsToScan = append(pkgsToScan, p)
+		}
+	}
+	for _, p := range pkgsToScan {
 		pkg := p.Pkg.Path()
 		for _, m := range p.Members {
 			switch m := m.(type) {
@@ -195,7 +201,15 @@ func run(cfg runConfig) (*runResult, error) {
 	if err := e.initGlobals(lr.order); err != nil {
 		return nil, err
 	}
-	fns := allFunctions(lr)
+	var extPkgs []string
+	seenPkg := map[string]bool{}
+	for _, c := range db.Contracts {
+		if !strings.HasPrefix(c.Pkg, modPath) && !seenPkg[c.Pkg] {
+			seenPkg[c.Pkg] = true
+			extPkgs = append(extPkgs, c.Pkg)
+		}
+	}
+	fns := allFunctions(lr, extPkgs...)
 	res := &runResult{engine: e}
 	var keys []string
 	if cfg.prop != "" {
@@ -215,9 +229,6 @@ func run(cfg runConfig) (*runResult, error) {
 	for _, k := range keys {
 		c := db.Contracts[k]
 		if c.Trusted != "" || c.Inline {
-			continue
-		}
-		if !strings.HasPrefix(c.Pkg, modPath) {
 			continue
 		}
 		if !hasProp(c, cfg.props) {
